@@ -21,6 +21,8 @@ import warnings
 
 import numpy as np
 
+SPLINE_APIS = ('spline', 'splinecomp', 'spline_moved', 'splinecomp_moved')
+
 from omv.props.c15_interp_values import (LATTICE, GENERAL, FIXED, all_grids, family, method_info,
                                          make_table, pal_seq, vander, _Raised,
                                          first_report)
@@ -576,16 +578,23 @@ def dv_config(cfg, pts):
             J = np.asarray(r[1][('f', 'f_train')], dtype=float).reshape(vec, n)
             for k, i in enumerate(rows[:len(set(rows))]):
                 compare(i, J[k], 'comp_partials')
-    elif api in ('spline', 'splinecomp'):
+    elif api in SPLINE_APIS:
         # 1-D only: the rows of P are the fixed x_interp locations
         x = P[:, 0].copy()
         g = np.array(grids[0], dtype=float)
         V = np.array([pal_seq(n, pal + k, 1) for k in range(vec)])
-        if api == 'spline':
+        # '_moved': the same object is first evaluated at other locations of the same length (the
+        # locations rotated by one), then x_interp is replaced and it is evaluated again
+        moved = api.endswith('_moved')
+        x_first = np.roll(x, 1) if moved else x
+        if api.startswith('spline_') or api == 'spline':
             from openmdao.components.interp_util.interp import InterpND
 
             def run():
-                t = InterpND(method=method, points=g, x_interp=x, **opts)
+                t = InterpND(method=method, points=g, x_interp=x_first.copy(), **opts)
+                if moved:
+                    t.evaluate_spline(V.copy() if vec > 1 else V[0].copy(), compute_derivative=True)
+                    t.x_interp = x.copy()
                 return t.evaluate_spline(V.copy() if vec > 1 else V[0].copy(),
                                          compute_derivative=True)
         else:
@@ -593,12 +602,16 @@ def dv_config(cfg, pts):
 
             def run():
                 p = om.Problem(reports=None)
-                c = om.SplineComp(method=method, x_cp_val=g, x_interp_val=x, vec_size=vec,
-                                  interp_options=dict(opts))
+                c = om.SplineComp(method=method, x_cp_val=g, x_interp_val=x_first.copy(),
+                                  vec_size=vec, interp_options=dict(opts))
                 c.add_spline('ycp', 'y', y_cp_val=V.copy())
                 p.model.add_subsystem('c', c, promotes=['*'])
                 p.setup()
                 p.run_model()
+                if moved:
+                    p.compute_totals(of=['y'], wrt=['ycp'])
+                    c.options['x_interp_val'] = x.copy()
+                    p.run_model()
                 y = np.asarray(p.get_val('y'), dtype=float).copy()
                 J = p.compute_totals(of=['y'], wrt=['ycp'])[('y', 'ycp')]
                 J = np.asarray(J, dtype=float).reshape(vec, N, vec, n)
@@ -826,7 +839,7 @@ def _collect(cfg, pts, fl, vios, dedupe):
     for f in fl:
         i = f.get('i', 0) or 0
         p = pts[i]
-        if cfg['kind0'] == 'dv' and cfg['api'] in ('spline', 'splinecomp'):
+        if cfg['kind0'] == 'dv' and cfg['api'] in SPLINE_APIS:
             # the whole x_interp vector is the input of these APIs
             v = _violation(cfg, p, f)
             v['case']['pts'] = [[float(x) for x in q] for q in pts]
@@ -877,9 +890,9 @@ def check_group(case):
                                           table=tkind, pal=pal, mode=mode, opts=opts), pts))
         else:
             pts, _ = dx_points(grids, True, level)
-            if api in ('spline', 'splinecomp'):
+            if api in SPLINE_APIS:
                 pts = sorted(pts)
-                for vec in (1, 2, len(pts)) if api == 'splinecomp' else (1, 2):
+                for vec in (1, 2, len(pts)) if api.startswith('splinecomp') else (1, 2):
                     for opts in optlist:
                         cfgs.append((dict(kind0='dv', api=api, method=method, grids=grids, pal=pal,
                                           vec=vec, opts=opts), pts))
@@ -995,9 +1008,11 @@ def cases(tier, seed):
         for g in all_grids(range(kmin, 6)):
             add('dv', 'interp', m, g, [[]])
             add('dv', 'spline', m, g, [[]])
+            add('dv', 'spline_moved', m, g, [[]])
         for g in (family(range(kmin, 6), 1) if quick else all_grids(range(kmin, 6))):
             add('dv', 'comp', m, g, [[]])
             add('dv', 'splinecomp', m, g, [[]])
+            add('dv', 'splinecomp_moved', m, g, [[]])
 
     # ---- 2-D: pairs of a family
     for m in list(GENERAL) + fixed_of(2):
